@@ -8,11 +8,15 @@ Observables: net.r, net.W, the evolved array, and the integer 2E = -s'Ws of ever
 (computed here from net.W, independently of the Coq model).
 Kind 'retrain/...': the SAME net instance is first trained with another pattern set P1 and then with P;
 the property says train SETS the weights, so the model is still `train P` (P1 never reaches Coq).
+Kind 'sequence/same-net': the SAME net object is evolved several times (c['pre'] = earlier (initial, T) runs): the
+AsynchronousRule object keeps _curr between the calls, so the later evolution continues the cyclic schedule.
+Kind 'mid/...': N in {31, 63, 127} with few steps.  Kind 'many-patterns/...': 127 / 128 / 129 equal patterns (weights of
+magnitude 128 do not fit a signed byte).
 Kind 'large/...': N in {129, 131, 201}, where the weighted input of a cell exceeds 127 in magnitude, with
 int8 and int64 state arrays (an input that wraps in a narrow dtype flips the sign of the update).
 """
 import itertools
-from harness.driver import call_impl, cnat, czlist, cgrid, cres, clist
+from harness.driver import call_impl, cnat, czlist, cgrid, cres, clist, cpair
 
 ID = 'C20'
 COQ_IMPORTS = ('From CPL Require Import Model.Base Model.Rules Model.Engine Model.Evolve1D Model.Async '
@@ -22,6 +26,8 @@ NONTRIVIAL_RULE = ('non-trivial = the evolution returned an array with at least 
                    'distinct = distinct case dicts')
 EXHAUSTIVE = {'quick': False, 'thorough': False}
 NOTES = ['N = 3: all 8 starts x all 6 update orders enumerated in both tiers; N in {5,7,9,11,15} sampled; '
+         'N in {31,63,127} a few cases with 2-8 steps; same net evolved 2-3 times (sequence/same-net); '
+         '127/128/129 equal patterns; '
          'N in {129,131,201} (weighted inputs beyond 127) with int8 and int64 states, 3-6 steps; W compared in full',
          'model compared = evolve_plain + async_rule1 (Model/Async.v, scripted shuffle) + hopfield_rule1; '
          'the direct schedule model hop_evolve must agree with it as well']
@@ -36,8 +42,36 @@ def _bip(rng, n):
     return [rng.choice([-1, 1]) for _ in range(n)]
 
 
-def _case(kind, N, P, perm, s, T, dtype, pform, P1=None):
-    return {'kind': kind, 'N': N, 'P': P, 'perm': perm, 's': s, 'T': T, 'dtype': dtype, 'pform': pform, 'P1': P1}
+def _case(kind, N, P, perm, s, T, dtype, pform, P1=None, pre=None):
+    return {'kind': kind, 'N': N, 'P': P, 'perm': perm, 's': s, 'T': T, 'dtype': dtype, 'pform': pform, 'P1': P1,
+            'pre': pre or []}
+
+
+MID = [31, 63, 127]
+
+
+def _mid(rng, tier):
+    """N in {31, 63, 127}: few steps (the Coq side costs about 0.1 / 0.5 / 2.5 s per case); half of them evolve the
+    same net twice."""
+    reps = 1 if tier == 'quick' else 3
+    for rep in range(reps):
+        for N, count in ((31, 6), (63, 4), (127, 4)):
+            for i in range(count):
+                P = [_bip(rng, N) for _ in range(rng.randint(1, 3))]
+                perm = list(range(N))
+                rng.shuffle(perm)
+                s = list(rng.choice(P))
+                flips = rng.sample(range(N), rng.randint(1, 5))
+                for k in flips:
+                    s[k] = -s[k]
+                if i % 2 == 0:        # schedule the flipped cells first: something happens within few steps
+                    perm = flips + [k for k in perm if k not in flips]
+                dt = rng.choice(['int8', 'int32', 'int64'])
+                if i % 2 == 1:
+                    yield _case('mid/sequence-same-net', N, P, perm, s, rng.randint(2, 6), dt, rng.choice(['list', 'array']),
+                                pre=[[_bip(rng, N), rng.randint(1, 5)]])
+                else:
+                    yield _case('mid/recall', N, P, perm, s, rng.randint(3, 8), dt, rng.choice(['list', 'array']))
 
 
 LARGE = [129, 131, 201]
@@ -76,7 +110,7 @@ def _large(rng, tier):
 
 def generate(rng, tier):
     small = list(_generate_small(rng, tier))
-    large = list(_large(rng, tier))
+    large = list(_large(rng, tier)) + list(_mid(rng, tier))
     # spread the expensive cases evenly over the list (the driver shards it in order, 400 per coqc process)
     if large:
         step = max(1, len(small) // len(large))
@@ -154,6 +188,26 @@ def _generate_small(rng, tier):
                 s0[k] = -s0[k]
         yield _case(kind, N, P, perm, s0, rng.randint(1, 4 * N),
                     rng.choice(['int32', 'int64']), rng.choice(['list', 'array']), P1=P1)
+    # the same net evolved two or three times: _curr of the AsynchronousRule object carries over
+    for i in range(70 * mult):
+        N = rng.choice(SIZES)
+        P = [_bip(rng, N) for _ in range(rng.randint(1, 4))]
+        perm = list(range(N))
+        rng.shuffle(perm)
+        pre = [[_bip(rng, N), rng.choice([1, 2, N, N + 1, rng.randint(1, 3 * N)])] for _ in range(rng.randint(1, 2))]
+        yield _case('sequence/same-net', N, P, perm, _bip(rng, N), rng.randint(1, 3 * N),
+                    rng.choice(['int32', 'int64']), rng.choice(['list', 'array']), pre=pre,
+                    P1=(None if i % 4 else [_bip(rng, N)]))
+    # 127 / 128 / 129 equal (or negated) patterns: weights of magnitude 127 / 128 / 129
+    for count in (127, 128, 129):
+        for N in (3, 5):
+            for rep in range(2):
+                p = _bip(rng, N)
+                P = [list(p) if rng.random() < 0.8 or rep == 0 else [-x for x in p] for _ in range(count)]
+                perm = list(range(N))
+                rng.shuffle(perm)
+                yield _case('many-patterns/%d-equal' % count, N, P, perm, _bip(rng, N), rng.randint(2, 3 * N),
+                            rng.choice(['int8', 'int64']), rng.choice(['list', 'array']))
     # random
     for i in range(230 * mult):
         N = rng.choice(SIZES)
@@ -173,7 +227,7 @@ def run_impl(c):
     import numpy as np
     import cellpylib as cpl
     N, perm = c['N'], c['perm']
-    obs = {'r': ('exc', 'OtherError'), 'W': ('exc', 'OtherError'), 'rows': ('exc', 'OtherError'), 'E2': []}
+    obs = {'r': ('exc', 'OtherError'), 'W': ('exc', 'OtherError'), 'pre': [], 'rows': ('exc', 'OtherError'), 'E2': []}
     state = {}
 
     def fake_shuffle(a):
@@ -209,12 +263,18 @@ def run_impl(c):
     if obs['W'][0] != 'ok':
         return obs
 
-    def evolve():
-        initial = np.array([c['s']], dtype=getattr(np, c['dtype']))
-        ca = cpl.evolve(initial, timesteps=c['T'], apply_rule=net.apply_rule, r=net.r)
+    def evolve(s0, T):
+        initial = np.array([s0], dtype=getattr(np, c['dtype']))
+        ca = cpl.evolve(initial, timesteps=T, apply_rule=net.apply_rule, r=net.r)
         return [[int(x) for x in row] for row in np.asarray(ca).tolist()]
 
-    obs['rows'] = list(call_impl(evolve))
+    for s0, T0 in c.get('pre') or []:      # earlier evolutions on the same net object
+        o = list(call_impl(evolve, s0, T0))
+        obs['pre'].append(o)
+        if o[0] != 'ok':
+            obs['rows'] = o
+            return obs
+    obs['rows'] = list(call_impl(evolve, c['s'], c['T']))
     if obs['rows'][0] == 'ok':
         W = obs['W'][1]
         obs['E2'] = [_energy2(W, row) if len(row) == len(W) else 0 for row in obs['rows'][1]]
@@ -222,9 +282,12 @@ def run_impl(c):
 
 
 def to_coq(c, obs):
-    return '(CHop %s %s %s %s %s %s %s %s %s)' % (
-        cnat(c['N']), cgrid(c['P']), clist(c['perm'], cnat), czlist(c['s']), cnat(c['T']),
-        cres(obs['r'], cnat), cres(obs['W'], cgrid), cres(obs['rows'], cgrid), czlist(obs['E2']))
+    pre = c.get('pre') or []
+    return '(CHop %s %s %s %s %s %s %s %s %s %s %s)' % (
+        cnat(c['N']), cgrid(c['P']), clist(c['perm'], cnat),
+        clist(pre, lambda st: cpair(czlist(st[0]), cnat(st[1]))), czlist(c['s']), cnat(c['T']),
+        cres(obs['r'], cnat), cres(obs['W'], cgrid), clist(obs.get('pre', []), lambda o: cres(o, cgrid)),
+        cres(obs['rows'], cgrid), czlist(obs['E2']))
 
 
 def nontrivial(c, obs):
@@ -249,23 +312,32 @@ def oracle(c, obs):
                 return 'W[%d][%d] = %d, sum of outer products (zero diagonal) gives %d' % (i, j, W[i][j], want)
             if W[i][j] != W[j][i]:
                 return 'W is not symmetric at (%d, %d)' % (i, j)
-    if len(rows) != c['T'] or rows[0] != c['s']:
-        return 'the evolution does not have T rows starting at the initial row'
-    e2 = [_energy2(W, row) for row in rows]
-    for t in range(1, len(rows)):
-        if any(x not in (-1, 1) for x in rows[t]):
-            return 'row %d is not bipolar' % t
-        cell = c['perm'][(t - 1) % N]
-        if any(rows[t][k] != rows[t - 1][k] for k in range(N) if k != cell):
-            return 'step %d changed a cell other than the scheduled cell %d' % (t, cell)
-        V = sum(W[i][cell] * rows[t - 1][i] for i in range(N) if i != cell)
-        if rows[t][cell] != (1 if V >= 0 else -1):
-            return 'step %d: cell %d has input %d but became %d' % (t, cell, V, rows[t][cell])
-        if e2[t] > e2[t - 1]:
-            return 'energy increased at step %d: 2E %d -> %d' % (t, e2[t - 1], e2[t])
-    if len(P) == 1 and (c['s'] == P[0] or c['s'] == [-x for x in P[0]]):
-        if any(row != c['s'] for row in rows):
-            return 'a single stored pattern (or its negation) is not a fixed point'
+    runs = [(list(st[0]), st[1], o) for st, o in zip(c.get('pre') or [], obs.get('pre') or [])] + [(c['s'], c['T'], obs['rows'])]
+    if len(runs) != len(c.get('pre') or []) + 1:
+        return 'an earlier evolution on the same net is missing from the observation'
+    offset = 0          # steps performed by the earlier evolutions: _curr of the rule object carries over
+    for k, (s0, T, o) in enumerate(runs):
+        if o[0] != 'ok':
+            return 'evolution %d on the net raised %s' % (k, o[1])
+        rows = o[1]
+        if len(rows) != T or rows[0] != s0:
+            return 'evolution %d does not have T rows starting at the initial row' % k
+        e2 = [_energy2(W, row) for row in rows]
+        for t in range(1, len(rows)):
+            if any(x not in (-1, 1) for x in rows[t]):
+                return 'evolution %d: row %d is not bipolar' % (k, t)
+            cell = c['perm'][(offset + t - 1) % N]
+            if any(rows[t][q] != rows[t - 1][q] for q in range(N) if q != cell):
+                return 'evolution %d: step %d changed a cell other than the scheduled cell %d' % (k, t, cell)
+            V = sum(W[i][cell] * rows[t - 1][i] for i in range(N) if i != cell)
+            if rows[t][cell] != (1 if V >= 0 else -1):
+                return 'evolution %d: step %d: cell %d has input %d but became %d' % (k, t, cell, V, rows[t][cell])
+            if e2[t] > e2[t - 1]:
+                return 'evolution %d: energy increased at step %d: 2E %d -> %d' % (k, t, e2[t - 1], e2[t])
+        if len(P) == 1 and (s0 == P[0] or s0 == [-x for x in P[0]]):
+            if any(row != s0 for row in rows):
+                return 'a single stored pattern (or its negation) is not a fixed point'
+        offset += T - 1
     return None
 
 
@@ -276,6 +348,9 @@ def shrink(c):
     if len(c['P']) > 1:
         yield dict(c, P=c['P'][:-1])
         yield dict(c, P=c['P'][1:])
+    if c.get('pre'):
+        yield dict(c, pre=c['pre'][1:])
+        yield dict(c, pre=[[st[0], max(1, st[1] // 2)] for st in c['pre']])
     if c.get('P1') is not None:
         yield dict(c, P1=None)
         if len(c['P1']) > 1:
@@ -284,8 +359,33 @@ def shrink(c):
         N = c['N'] - 2
         perm = [x for x in c['perm'] if x < N]
         P1 = None if c.get('P1') is None else [p[:N] for p in c['P1']]
-        yield dict(c, N=N, P=[p[:N] for p in c['P']], perm=perm, s=c['s'][:N], P1=P1)
+        yield dict(c, N=N, P=[p[:N] for p in c['P']], perm=perm, s=c['s'][:N], P1=P1,
+                   pre=[[st[0][:N], st[1]] for st in (c.get('pre') or [])])
     if c['pform'] == 'array':
         yield dict(c, pform='list')
     if c['dtype'] not in ('int64', 'int8'):
         yield dict(c, dtype='int64')
+
+
+# ------------------------------------------------------------------ source tie (appended; harness/translate.py)
+# pre(): regenerate coq/gen/GenFuns.v from the Python source of the tree under test and, if it changed, re-prove
+# GenProps/GenFunsEquivC20.v, GenProps/C20Src.v and Properties/C20.v (theorem C20_source_tie) by hand.
+# extra_checks(): report a failed translation / equivalence proof (theorem names, translator or coqc error).
+from harness import translate as _translate
+_prev_pre = globals().get('pre')
+_prev_extra_checks = globals().get('extra_checks')
+TRUSTED = list(globals().get('TRUSTED', [])) + [_translate.TRUSTED_NOTE]
+NOTES = list(globals().get('NOTES', [])) + [
+    'coq/gen/GenFuns.v is regenerated from the Python source at the start of every run; theorem C20_source_tie proves '
+    'the regenerated definitions equal to the hand-written model for all inputs']
+
+
+def pre(ctx):
+    if _prev_pre is not None:
+        _prev_pre(ctx)
+    _translate.pre_hook(ctx, 'C20')
+
+
+def extra_checks(ctx):
+    out = list(_prev_extra_checks(ctx)) if _prev_extra_checks is not None else []
+    return out + _translate.extra_hook(ctx, 'C20')
